@@ -88,6 +88,20 @@ SRV_NONTRIVIAL = {
 }
 
 
+def nt_chain(h, l):
+    return has(l, r"^obs wire hop=[23] cancel") and has(l, r"^obs outcome \d+ ok:") and count(l, r"^op start") >= 2
+
+
+def chain_family():
+    f = trace.Family("chain", ["--scripts=300", "--len=40"], ["--scripts=20000", "--len=50"],
+                     project=lambda lines: canon.canon_lines(lines), nontrivial=nt_chain,
+                     rule="real client+server chains of depth 1-3 (in-memory bounded/unbounded transports, with and without a "
+                          "request limit) on a paused LocalSet runtime: start / run-until-idle / abandon / finish / advance; "
+                          "non-trivial = two concurrent calls, a cancel written at hop 2 or 3, and a successful outcome")
+    f.tag = "chain"
+    return f
+
+
 def families(prop, sides=("cli", "srv")):
     fams = []
     if "cli" in sides and prop in CLI_PROJ:
@@ -110,6 +124,8 @@ def families(prop, sides=("cli", "srv")):
                                           "injected requests (fresh, duplicate-in-flight, re-used after completion), cancels, limits 0-2 or none, "
                                           "sink stalls, clock steps around timer ticks; non-trivial per property-specific predicate"))
             fams[-1].tag = f"srv{i}"
+    if "chain" in sides:
+        fams.append(chain_family())
     return fams
 
 
